@@ -1,8 +1,11 @@
 pub mod common;
 pub mod c01;
 pub mod c02;
+pub mod c10;
+pub mod c11;
 pub mod c13;
 pub mod c14;
+pub mod c16;
 pub mod c17;
 pub mod c18;
 
@@ -17,8 +20,11 @@ pub struct PropEntry {
 pub const PROPS: &[PropEntry] = &[
     PropEntry { id: "C01", run: c01::run_check, case: c01::case },
     PropEntry { id: "C02", run: c02::run_check, case: c02::case },
+    PropEntry { id: "C10", run: c10::run_check, case: c10::case },
+    PropEntry { id: "C11", run: c11::run_check, case: c11::case },
     PropEntry { id: "C13", run: c13::run_check, case: c13::case },
     PropEntry { id: "C14", run: c14::run_check, case: c14::case },
+    PropEntry { id: "C16", run: c16::run_check, case: c16::case },
     PropEntry { id: "C17", run: c17::run, case: c17::case },
     PropEntry { id: "C18", run: c18::run_check, case: c18::case },
 ];
